@@ -263,7 +263,7 @@ class G(object):
             ti.base_product.version = r.choice(["7", "21", "Rawhide"])
         ti.tree.arch = r.choice(ARCHES + ["src"])
         ti.tree.build_timestamp = r.choice([1417653911, 1, 2 ** 33])
-        ti.tree.platforms = set(r.sample(["xen", "x86_64", "i386", "ppc64le"], r.randint(0, 2)))
+        ti.tree.platforms = set(r.sample(["xen", "x86_64", "i386", "ppc64le", "xen-" + ti.tree.arch], r.randint(0, 2)))
         if r.random() < 0.7:
             ti.tree.platforms.add(ti.tree.arch)
         tops = r.sample(["Server", "Client", "Workstation"], r.randint(1, 3) if ntop is None else ntop)
